@@ -177,10 +177,7 @@ where
         let old_key = insert(ctx.state_mut(), key_ident, cloned_key.into());
         let old_value = insert(ctx.state_mut(), value_ident, cloned_value);
 
-        let result = match (self.runner)(ctx) {
-            Ok(value) | Err(ExpressionError::Return { value, .. }) => Ok(value),
-            err @ Err(_) => err,
-        };
+        let result = self.call(ctx);
 
         cleanup(ctx.state_mut(), key_ident, old_key);
         cleanup(ctx.state_mut(), value_ident, old_value);
@@ -209,7 +206,7 @@ where
         let old_index = insert(ctx.state_mut(), index_ident, index.into());
         let old_value = insert(ctx.state_mut(), value_ident, cloned_value);
 
-        let result = (self.runner)(ctx);
+        let result = self.call(ctx);
 
         cleanup(ctx.state_mut(), index_ident, old_index);
         cleanup(ctx.state_mut(), value_ident, old_value);
@@ -231,7 +228,7 @@ where
         let ident = self.ident(0);
         let old_key = insert(ctx.state_mut(), ident, cloned_key.into());
 
-        let result = (self.runner)(ctx);
+        let result = self.call(ctx);
 
         cleanup(ctx.state_mut(), ident, old_key);
 
@@ -254,13 +251,22 @@ where
         let ident = self.ident(0);
         let old_value = insert(ctx.state_mut(), ident, cloned_value);
 
-        let result = (self.runner)(ctx);
+        let result = self.call(ctx);
 
         cleanup(ctx.state_mut(), ident, old_value);
 
         *value = result?;
 
         Ok(())
+    }
+
+    /// Invoke the closure once. A `return` inside the closure body ends only
+    /// this invocation, with the returned value as its result.
+    fn call(&self, ctx: &mut Context) -> Result<Value, ExpressionError> {
+        match (self.runner)(ctx) {
+            Ok(value) | Err(ExpressionError::Return { value, .. }) => Ok(value),
+            err @ Err(_) => err,
+        }
     }
 
     fn ident(&self, index: usize) -> Option<&Ident> {
